@@ -377,6 +377,12 @@ func checkC10Vs(t *Toks) string {
 		if !strings.HasPrefix(what, "sig-bit-flip") && !strings.Contains(what, "+resigned") {
 			note(d.judgeAll(what))
 			note(d.judgeHistory(c, k, what))
+			// the same packet with a final script next to the partial signatures of input k
+			if d.ins[k].finalSig == nil && d.ins[k].finalWit == nil {
+				d2 := d.clone()
+				d2.ins[k].finalWit = []byte{0x01, 0x51}
+				note(d2.judgeAll(what + "+final-script-next-to-partial-signatures"))
+			}
 		}
 		return ""
 	}
